@@ -362,3 +362,146 @@ pub fn check_c20_history(case: &CliCase) -> CaseResult {
     ok.nontrivial = base_run.ledger.completions.len() >= 3 && base_run.peers.len() >= 2;
     Ok(ok)
 }
+
+// ---------------------------------------------------------------------------------------------
+// C14 / C20: the RTU server's wait between two attempts to open its port
+
+/// `SessionTask::sleep_for(delay)` is what the RTU server task does while its port is closed.
+/// Decode-level changes sent through the ServerHandle meanwhile must not end the wait early;
+/// a shutdown (or the last handle going away) must end it at once.
+#[derive(Clone, Debug, PartialEq, Eq, Hash, Serialize, Deserialize)]
+pub struct WaitCase {
+    pub delay_ms: u32,
+    /// level changes at these offsets (ms after the wait began; those at or beyond the delay
+    /// are sent after it is over)
+    pub changes: Vec<(u32, Decode)>,
+    /// 0 = nothing else, 1 = ServerHandle::shutdown at `end_at`, 2 = handle dropped at `end_at`
+    pub end: u8,
+    pub end_at_ms: u32,
+    pub select_seed: u64,
+}
+
+pub fn arb_wait() -> BoxedStrategy<WaitCase> {
+    (
+        prop::sample::select(vec![0u32, 1, 50, 1000, 60_000]),
+        proptest::collection::vec((0u32..1200, arb_decode_any()), 0..12),
+        prop_oneof![3 => Just(0u8), 1 => Just(1u8), 1 => Just(2u8)],
+        0u32..1200,
+        any::<u64>(),
+    )
+        .prop_map(|(delay_ms, mut changes, end, end_at_ms, select_seed)| {
+            changes.sort_by_key(|c| c.0);
+            WaitCase {
+                delay_ms,
+                changes,
+                end,
+                end_at_ms,
+                select_seed,
+            }
+        })
+        .boxed()
+}
+
+pub fn check_wait(case: &WaitCase) -> CaseResult {
+    use rodbus::server::ServerHandlerMap;
+    use rodbus::verif::{server_session, Framing as RFraming};
+    use std::time::Duration;
+    crate::trace::init();
+    let rt = crate::sim::runtime(case.select_seed);
+    let case = case.clone();
+    rt.block_on(async move {
+        let log: crate::app::CallLog = Default::default();
+        let map = ServerHandlerMap::single(
+            rodbus::UnitId::new(1),
+            rodbus::server::RequestHandler::wrap(crate::app::LogHandler::new(1, Default::default(), log)),
+        );
+        let (handle, mut session) = server_session(RFraming::Rtu, map, None, Decode::NOTHING.to_rodbus());
+        let start = tokio::time::Instant::now();
+        let delay = Duration::from_millis(case.delay_ms as u64);
+        let waiter = tokio::spawn(async move {
+            let r = session.sleep_for(delay).await;
+            (r.is_ok(), tokio::time::Instant::now())
+        });
+        tokio::task::yield_now().await;
+        let mut handle = Some(handle);
+        // the script: level changes and the end action in time order
+        let mut events: Vec<(u32, Option<Decode>)> = case.changes.iter().map(|(t, d)| (*t, Some(*d))).collect();
+        if case.end != 0 {
+            events.push((case.end_at_ms, None));
+        }
+        events.sort_by_key(|e| e.0);
+        let mut changes_before_end = 0usize;
+        let mut ended_by_script: Option<Duration> = None;
+        for (t, ev) in events {
+            let at = start + Duration::from_millis(t as u64);
+            tokio::time::sleep_until(at).await;
+            tokio::task::yield_now().await;
+            match ev {
+                Some(level) => {
+                    if let Some(h) = handle.as_mut() {
+                        // the queue is bounded: a send that does not fit must not block the script
+                        let _ = tokio::time::timeout(Duration::from_millis(0), h.set_decode_level(level.to_rodbus())).await;
+                        if t < case.delay_ms && ended_by_script.is_none() {
+                            changes_before_end += 1;
+                        }
+                    }
+                }
+                None => {
+                    if ended_by_script.is_none() {
+                        ended_by_script = Some(Duration::from_millis(t as u64));
+                    }
+                    if case.end == 1 {
+                        if let Some(h) = handle.as_ref() {
+                            let _ = tokio::time::timeout(Duration::from_millis(0), h.shutdown()).await;
+                        }
+                    } else {
+                        handle = None;
+                    }
+                }
+            }
+            tokio::task::yield_now().await;
+        }
+        let (ok_result, ended_at) = match tokio::time::timeout(Duration::from_secs(200_000), waiter).await {
+            Ok(Ok(x)) => x,
+            Ok(Err(e)) => return Err(format!("the wait panicked: {}", e)),
+            Err(_) => return Err(format!("a wait of {} ms was still going on after 200000 s", case.delay_ms)),
+        };
+        let took = ended_at - start;
+        let mut ok = CaseOk::new();
+        let cut_short = matches!(ended_by_script, Some(t) if t < delay);
+        if cut_short {
+            let t = ended_by_script.unwrap();
+            if ok_result || took != t {
+                return Err(format!(
+                    "wait of {} ms with {} at {:?}: it ended at {:?} reporting {}; it has to end at once, reporting shutdown",
+                    case.delay_ms,
+                    if case.end == 1 { "ServerHandle::shutdown()" } else { "the last handle dropped" },
+                    t,
+                    took,
+                    if ok_result { "that the delay is over" } else { "shutdown" }
+                ));
+            }
+            ok.label("wait_ended_by_shutdown");
+        } else {
+            if !ok_result || took != delay {
+                return Err(format!(
+                    "wait of {} ms with {} decode-level changes sent meanwhile (at {:?} ms): it ended after {:?}{}; the delay announced is the delay waited",
+                    case.delay_ms,
+                    changes_before_end,
+                    case.changes.iter().map(|c| c.0).filter(|t| *t < case.delay_ms).collect::<Vec<_>>(),
+                    took,
+                    if ok_result { "" } else { " reporting shutdown" }
+                ));
+            }
+        }
+        if changes_before_end > 0 {
+            ok.label("level_changes_during_the_wait");
+        }
+        if changes_before_end > 8 {
+            ok.label("more_changes_than_the_queue_holds");
+        }
+        ok.nontrivial = changes_before_end > 0;
+        drop(handle);
+        Ok(ok)
+    })
+}
